@@ -98,41 +98,46 @@ def new (startPosition : Nat) (loopRegion : Option (Nat × Nat)) (reverse : Bool
 def setLoopRegion (t : Transport) (loopRegion : Option (Nat × Nat)) : Transport :=
   { t with loopRegion := loopRegion }
 
+/-- the wrap loop of `increment_position` applied to the already incremented position `p` -/
+def incWrap (t : Transport) (p : Nat) : Except Fault Nat :=
+  match t.loopRegion with
+  | some (ls, le) => wrapDown (p + 1) p ls le
+  | none => .ok p
+
 /-- mirrors: Transport::increment_position -/
 def increment (t : Transport) (numFrames : Nat) : Except Fault Transport :=
   if !t.playing then .ok t
   else
-    let p := t.position + 1
-    let wrapped : Except Fault Nat :=
-      match t.loopRegion with
-      | some (ls, le) => wrapDown (p + 1) p ls le
-      | none => .ok p
-    match wrapped with
+    match t.incWrap (t.position + 1) with
     | .error f => .error f
     | .ok p => .ok { t with position := p, playing := decide (p < numFrames) }
+
+/-- the wrap loop of `decrement_position` -/
+def decWrap (t : Transport) : Except Fault Nat :=
+  match t.loopRegion with
+  | some (ls, le) => wrapUp (ls + 2) t.position (ls + 1) ls le
+  | none => .ok t.position
 
 /-- mirrors: Transport::decrement_position -/
 def decrement (t : Transport) : Except Fault Transport :=
   if !t.playing then .ok t
   else
-    let wrapped : Except Fault Nat :=
-      match t.loopRegion with
-      | some (ls, le) => wrapUp (ls + 2) t.position (ls + 1) ls le
-      | none => .ok t.position
-    match wrapped with
+    match t.decWrap with
     | .error f => .error f
     | .ok p => if p = 0 then .ok { t with position := p, playing := false }
                else .ok { t with position := p - 1 }
 
+/-- the wrap loops of `seek_to` -/
+def seekWrap (t : Transport) (position : Nat) : Except Fault Nat :=
+  match t.loopRegion with
+  | some (ls, le) =>
+    if t.position < position then wrapDown (position + 1) position ls le
+    else wrapUp (ls + 1) position ls ls le
+  | none => .ok position
+
 /-- mirrors: Transport::seek_to (note: never sets `playing` back to `true`) -/
 def seekTo (t : Transport) (position numFrames : Nat) : Except Fault Transport :=
-  let wrapped : Except Fault Nat :=
-    match t.loopRegion with
-    | some (ls, le) =>
-      if t.position < position then wrapDown (position + 1) position ls le
-      else wrapUp (ls + 1) position ls ls le
-    | none => .ok position
-  match wrapped with
+  match t.seekWrap position with
   | .error f => .error f
   | .ok p => .ok { t with position := p, playing := if numFrames ≤ p then false else t.playing }
 
